@@ -29,8 +29,9 @@ func init() {
 			Rule:        "case = an engine-written multi-block file (all three codecs across cases) x a batch of mutated inputs, each written to disk before it is used. Byte mutations: single/multi bit flips, byte bursts, truncation at every structural boundary +-1, extension, splices from another file, zeroed ranges, each targeted at row data, filter region, file filter section, metadata JSON, CRC, length, version, magic. Framing mutations: the footer JSON re-encoded with a consistent CRC and one or two of {region offset/size, block row-data offset/size, block filter offset/size, file filter section size} set to boundary values (-1, 0, 1, size+-1, 2^31+-1, 2^40, 2^62, int64 extremes) or PRNG values. Per input: ReadFileMetadata, then ReadDataBlockRowData / ReadDataBlockBloomFilters / BlockRowScanner with the metadata it returned (or the original metadata), a query through MemoryMetaStore holding the original metadata over the mutated bytes, and a query through FileSystemDataStore scanning the mutated file. Oracle: no panic or fatal error; TotalAlloc delta per call <= 16 x (file size + original uncompressed sizes) + 8 MiB; with original metadata the result is the exact uncorrupted answer or Err != nil; every returned row is a row that was written, byte for byte. non-trivial = input that at least one call rejected with an error; distinct = distinct mutated contents",
 			Assumptions: []string{"UncompressedSize and Rows are not among the framing fields the property quantifies over and are not mutated", "helpers are called with metadata that ReadFileMetadata returned for the mutated file, or with the original metadata over mutated bytes (a MetaStore that hands out unvalidated row-data extents is outside the property)"},
 			Floors:      map[string]int64{"inputs": 3000, "inputs_rejected": 1500, "framing_inputs": 800, "queries_memmeta": 3000, "queries_fsscan": 500}},
-		Cases: func(t string) int { return nQueries(t, 32, 3000) },
-		Run:   runC19,
+		Cases:        func(t string) int { return nQueries(t, 32, 1200) },
+		ChildTimeout: func(t string) time.Duration { return 90 * time.Minute },
+		Run:          runC19,
 	})
 }
 
